@@ -31,7 +31,7 @@ def generate_core(rng, tier):
             i = rng.randrange(len(b))
             b[i] ^= 1 << rng.randrange(8)
             ops.append('op parse %s %s %s' % (hx(sec), hx(rq), hx(b)))
-    ops += codec.parse_ops(rng, 30000 if tier == 'thorough' else 1500)
+    ops += codec.parse_ops(rng, 30000 if tier == 'thorough' else 1500) + codec.interleaved_parse_ops(rng, 600 if tier == 'thorough' else 60)
     return batch(ops, 'rep', 100)
 
 def generate(rng, tier):
